@@ -15,6 +15,13 @@ Definition enc_entry (s : st) (x : entry) : T :=
   | LDC e => Tl [Tn 3; Tnat (lbl_of s e)]
   | LF e => Tl [Tn 5; Tnat (lbl_of s e);
                 match gpar s e with Some p => Tnat (lbl_of s p) | None => Tn 0 end]
+  | LD d => match kind s d with
+            | KExc x => Tl [Tn 6; Tn 0; Tnat (lbl_of s x)]
+            | KFail x => Tl [Tn 6; Tn 1; Tnat (lbl_of s x)]
+            | KSucc x => Tl [Tn 6; Tn 2; Tnat (lbl_of s x)]
+            | KDone x => Tl [Tn 6; Tn 3; Tnat (lbl_of s x)]
+            | _ => Tl [Tn 6; Tn 9; Tnat d]
+            end
   end.
 
 Definition is_user (s : st) (e : nat) : bool :=
@@ -30,4 +37,4 @@ Definition obs_state (s : st) : T :=
       Tbool (quiet s && negb (oof s))].
 
 Definition obs_run (roots : list ev) (sched : list (list (nat * nat))) (fuel : nat) : T :=
-  obs_state (run fuel sched (start roots)).
+  obs_state (run fixed fuel sched (start roots)).
